@@ -283,13 +283,26 @@ def run(ctx, replay=None):
                                          "-rounds", str(rounds), "-seed", str(ctx.seed * 100 + i), "-scratch", ctx.scratch])
         if race:
             races.append(("%s clients=%d GOMAXPROCS=%d" % (mode, cl, procs), err))
+        if info.get("hang"):
+            add("concurrent use of one client: a call does not return", {"case": {"kind": "conc", "mode": mode, "clients": cl}, "observed": info})
         nconc += info.get("recorded", 0)
         files = sorted(os.path.join(od, f) for f in os.listdir(od) if f.endswith(".ndjson"))
         # one judged file per configuration (each client log starts with its own tree line)
         cat = os.path.join(od, "all.cat")
         with open(cat, "w") as fh:
             for f in files:
-                fh.write(open(f).read())
+                txt = open(f).read()
+                if info.get("hang"):
+                    # the recorder stopped in the middle of a line: keep the complete observations only
+                    good = []
+                    for line in txt.splitlines():
+                        try:
+                            json.loads(line)
+                            good.append(line)
+                        except ValueError:
+                            break
+                    txt = "\n".join(good) + ("\n" if good else "")
+                fh.write(txt)
         conc_files.append(cat)
         ctx.cov["traces_validated_against_impl"] += len(files)
     # the CalDAV / CardDAV handlers and the principal helper under the same regime: every concurrent answer equals the answer alone
